@@ -32,7 +32,8 @@ theorem subAssignR_eq (a : Cx K) (r : K) : subAssignR a r = subR a r := rfl
 theorem mulAssignR_eq (a : Cx K) (r : K) : mulAssignR a r = mulR a r := rfl
 theorem divAssignR_eq (a : Cx K) (r : K) : divAssignR a r = divR a r := rfl
 
-/-- all fourteen variants at once -/
+/-- the eight compound / mixed forms at once (seven of them hold by `rfl`: the model's assignment forms are the
+    same terms as the binary forms, as in the Rust source) -/
 theorem assign_eq_binary (hc : ∀ x y : K, x + y = y + x) (a b : Cx K) (r : K) :
     addAssign a b = a + b ∧ subAssign a b = a - b ∧ mulAssign a b = a * b ∧ divAssign a b = Cx.div a b ∧
     addAssignR a r = addR a r ∧ subAssignR a r = subR a r ∧ mulAssignR a r = mulR a r ∧
